@@ -36,7 +36,7 @@ Section Geo.
     forall ties, length (interp_all ties) = length ties /\
       forall i lo la, nth_error ties i = Some (lo, la) ->
         length (nth i (interp_all ties) []) = Z.to_nat width /\
-        forall k c, nth_error cols k = Some c -> (k < length lo)%nat -> (k < length la)%nat ->
+        forall k c, nth_error cols k = Some c -> 0 <= c < width -> (k < length lo)%nat -> (k < length la)%nat ->
           nth (Z.to_nat c) (nth i (interp_all ties) []) (0%Q, 0%Q) = (nth k lo 0%Q, nth k la 0%Q).
 End Geo.
 
